@@ -8,7 +8,7 @@ import json,re
 k=json.load(open('/verif/known_findings.json'))
 seen=set()
 for f in k['fixed']:
-    m=re.match(r'fixed: property=(C\d+) ([0-9a-f, ]+?) ',f)
+    m=re.match(r'fixed: property=(C\d+) ((?:[0-9a-f]{7,}(?:, )?)+) ',f)
     if not m: continue
     for c in re.split(r'[ ,]+',m.group(2).strip()):
         if c and (m.group(1),c) not in seen:
